@@ -11,9 +11,9 @@ from ..outcome import exc_bucket, fail, passed
 
 ID = 'C12'
 LEVEL = 'exploration'
-CASES = {'quick': 4000, 'thorough': 60000}
+CASES = {'quick': 3200, 'thorough': 60000}
 CASE_TIMEOUT = 30
-SHRINK_BUDGET = {'quick': 40, 'thorough': 200}
+SHRINK_BUDGET = {'quick': 30, 'thorough': 200}
 TECHNIQUE = ('property-based testing (Hypothesis): generated rich models are written with write_inpfile and read back '
              'with read_inpfile; differential comparison of to_dict()/control structure of original and re-read model '
              'per element name and field, then a second cycle (metamorphic: idempotence of write/read and of the text)')
@@ -49,7 +49,14 @@ ASSUMPTIONS = [
     'then); required pressure >= 0.1 file units (EPANET limit, the writer clamps below it)',
     'pump simple controls use attribute base_speed, pump rule actions attribute setting (the two spellings the '
     'readers produce for EPANET\'s single pump setting); a CV pipe has status Open; a closed pump has no [STATUS] '
-    'speed setting; mixing fraction only with 2COMP; integer seconds for all times; wall order 0 or 1 (EPANET accepts nothing else), bulk and tank order any real',
+    'speed setting; mixing fraction only with 2COMP; integer seconds for all times; wall order 0 or 1 (EPANET '
+    'accepts nothing else), bulk and tank order any real (EPANET reads them as reals)',
+    'second cycle: the model read from the first file is compared with the model read from its own rewrite in all '
+    'to_dict() fields (also report/graphics options, read from the options object), and the texts of the second and '
+    'third file are compared; first-cycle exclusions do not apply there because an INP-born model holds nothing the '
+    'format cannot express',
+    'one failing case reports one bucket: exceptions first, then first-cycle differences in alphabetical order (the '
+    'very frequent single-demand category last), then second-cycle differences; the detail text lists the others',
     'input construction (not the oracle) uses wntr.epanet.util.to_si to turn file-unit grid values into the SI '
     'numbers given to the API; unit constants themselves are property C17',
 ]
@@ -57,7 +64,9 @@ TOLERANCES = {
     'first_cycle_rel': '1e-9 relative (+1e-300): %.11g fields carry 11 significant digits (<= 5e-11), repr()/str() '
                        'fields are exact, lossy-format fields are generated on a grid that prints exactly',
     'second_cycle_rel': 1e-12,
-    'text': 'equal after removing the "; Filename/WNTR/Created" header, collapsing whitespace, dropping empty lines',
+    'text': 'lines equal after removing the "; Filename/WNTR/Created" header, collapsing whitespace and dropping empty '
+            'lines; numeric tokens may differ by 1e-12 relative (str() fields print 17 digits and from_si(to_si(x)) may '
+            'move the last one)',
 }
 LEVEL_TEXT = ('exploration: random search over generated models; a violation is a concrete replayable model, absence '
               'of violations is no proof')
@@ -996,6 +1005,11 @@ _tmp = {'dir': None}
 
 
 def _scratch():
+    """the per-process scratch directory of the harness (removed by it); a private one when used stand-alone"""
+    from .. import envsetup
+    d = getattr(envsetup, '_scratch', None)
+    if d and os.path.isdir(d):
+        return d
     if _tmp['dir'] is None or not os.path.isdir(_tmp['dir']):
         _tmp['dir'] = tempfile.mkdtemp(prefix='c12_')
         atexit.register(shutil.rmtree, _tmp['dir'], True)
@@ -1155,7 +1169,7 @@ def evaluate(case):
     d1 = wntr.network.to_dict(wn)
     r1, s1 = controls_view(wn)
     tmp = _scratch()
-    f1, f2, f3 = (os.path.join(tmp, n) for n in ('a.inp', 'b.inp', 'c.inp'))
+    f1, f2, f3 = (os.path.join(tmp, n) for n in ('c12_a.inp', 'c12_b.inp', 'c12_c.inp'))
     ctxt = 'units=%s via %s, version=%s' % (case['units'], case['units_via'], case['version'])
 
     def write(model, path, first):
